@@ -184,12 +184,14 @@ def resolvers2(PC):
             return cnt == 0 and P != "lenient"
         except AmbiguousTimeError:
             return cnt == 2 and P == "strict"
+        if cnt == 0:
+            # forward shift by the gap length, stated in local coordinates: the skipped local time moved by (offset after - offset before)
+            loc = daycal.days_of(r.date) * NPD + r.nanosecond_of_day
+            return P == "lenient" and loc == L + (o1 - o0) * NS and r.offset.seconds == o1 and r.zone is zone
         got = _zdt_total(r)
         if cnt == 1:
             return got == (inst0 if c[0] else inst1) and r.zone is zone
-        if cnt == 2:
-            return P != "strict" and got == (inst1 if P == "last" else inst0)
-        return P == "lenient" and got == inst0 and r.offset.seconds == o1
+        return P != "strict" and got == (inst1 if P == "last" else inst0)
     return h
 
 
